@@ -87,6 +87,17 @@ ImageBytes(cells) ==
 
 \* rows event body: table id, flags, [v2: extra-data length (2, counting itself) + extra data], column count,
 \* present bitmaps (before for update/delete, after for write/update), rows
+\* the columns-present bitmaps may have the unused high bits of their last byte set (padones)
+PadBits(bits, padones) == bits \o [i \in 1..((8 - (Len(bits) % 8)) % 8) |-> IF padones THEN 1 ELSE 0]
+RowsBodyP(tidw, tidText, v2, extra, ncols, kind, pb, pa, rows, padones) ==
+  LET hasB == kind # "write"
+      hasA == kind # "delete"
+  IN LEText(tidText, tidw) \o <<1, 0>> \o
+     (IF v2 THEN LESmallN(2 + Len(extra), 2) \o extra ELSE <<>>) \o
+     LenEnc(ncols) \o
+     (IF hasB THEN BitmapBytes(PadBits(pb, padones)) ELSE <<>>) \o (IF hasA THEN BitmapBytes(PadBits(pa, padones)) ELSE <<>>) \o
+     Concat([r \in 1..Len(rows) |-> (IF hasB THEN ImageBytes(rows[r].b) ELSE <<>>) \o (IF hasA THEN ImageBytes(rows[r].a) ELSE <<>>)])
+
 RowsBody(tidw, tidText, v2, extra, ncols, kind, pb, pa, rows) ==
   LET hasB == kind # "write"
       hasA == kind # "delete"
